@@ -78,6 +78,22 @@ func c01Decorate(c *core.C, s *gen.Schema) (feat []string) {
 				break
 			}
 		}
+		if f.Syntax == "proto2" && len(f.Messages) > 0 && c.Rand.IntN(4) == 0 {
+			// a third kind of compiler warning in the same file: proto2 fields whose default JSON
+			// names collide (a warning, not an error, in proto2) — together with an unused import
+			m := f.Messages[0]
+			m.Fields = append(m.Fields,
+				&gen.Field{Name: "dup_json_name", Number: 9001, Label: "optional", Kind: "scalar", Type: "string", Comment: "One."},
+				&gen.Field{Name: "dupJsonName", Number: 9002, Label: "optional", Kind: "scalar", Type: "string", Comment: "Two."})
+			feat = append(feat, "json-name-collision-warning")
+			if i > 0 {
+				tgt := files[c.Rand.IntN(i)]
+				if tgt.Path != f.Path && !s.UsedImportPaths(f)[tgt.Path] {
+					f.ExtraImports = append(f.ExtraImports, gen.Import{Path: tgt.Path})
+					feat = append(feat, "unused-import")
+				}
+			}
+		}
 		if f.Syntax == "proto2" && c.Rand.IntN(4) == 0 {
 			f.Syntax = ""
 			feat = append(feat, "no-syntax")
